@@ -126,3 +126,109 @@ def rule_reduce(P) -> RuleResult:
                      f'inventory - inv.reduce(f, extra...) with the f and the extra arguments of the position overload - so that it commutes '
                      f'with sum(); found {shown[:300] or "several different results"}', loc(ifi))
     return res
+
+
+# ----------------------------------------------------------------------
+# R-CASTDEF (C18): what the casts convert, and the functions that depend on the ledger's account types
+
+def rule_castdef(P) -> RuleResult:
+    """date(<string>) converts exactly the strings strptime('%Y-%m-%d') accepts; date(<date>) is the date; date(y, m, d) is
+    datetime.date(y, m, d); possign() and account_sortkey() classify accounts with the account types of *this* ledger."""
+    res = RuleResult('R-CASTDEF')
+    res.exhaustive = True
+    reg = registry.get(P)
+    m = P.module('beanquery.query_env')
+    X = Sym('X')
+
+    def impls(name, nargs):
+        out = {}
+        for f in reg.funcs:
+            if f.name == name and f.kind == 'function' and f.impl is not None and len(f.intypes) == nargs:
+                out[f.impl.fq] = f
+        return list(out.values())
+    # date(x)
+    for f in impls('date', 1):
+        fi = f.impl
+        for kind in ('date', 'str', 'other'):
+            def on_isinstance(v, c, ex, _k=kind):
+                from ..symex import gname
+                cn = gname(c)
+                if v == X:
+                    return _k == 'date' if cn.endswith('date') else _k == 'str' if cn.endswith('str') else False
+                return NotImplemented
+            vals = []
+            for p in Engine(P, on_isinstance=on_isinstance).paths(fi, {fi.params[0]: X}):
+                if p.outcome == 'return':
+                    vals.append(_resolve_names(canon(p.value), fi.module))
+            construct = f'function:date({kind})'
+            if kind == 'date':
+                good = vals == [X]
+                want = 'the date itself'
+            elif kind == 'str':
+                want_t = ('call', "datetime.datetime.strptime(X, '%Y-%m-%d').date", (), ())
+                got_names = [v for v in vals]
+                good = len(vals) == 1 and isinstance(vals[0], tuple) and vals[0][0] == 'call' and \
+                    str(vals[0][1]).replace('"', "'").endswith("strptime(X, '%Y-%m-%d').date") and not vals[0][2]
+                want = "datetime.datetime.strptime(x, '%Y-%m-%d').date(): the conversion of a year-month-day string (or NULL when it is not one)"
+            else:
+                good = vals == [None]
+                want = 'NULL'
+            if good:
+                res.ok({'function': f'date({kind})', 'value': want})
+            else:
+                res.fail(construct, 'castdef:date', f'date(<{kind}>) must be {want}; the implementation returns {vals}'[:400], loc(fi))
+    for f in impls('date', 3):
+        fi = f.impl
+        Y, Mo, D = Sym('Y'), Sym('M'), Sym('D')
+        vals = [_resolve_names(canon(p.value), fi.module) for p in Engine(P).paths(fi, dict(zip(fi.params, (Y, Mo, D)))) if p.outcome == 'return']
+        if vals == [('call', 'datetime.date', (Y, Mo, D), ())]:
+            res.ok({'function': 'date(y, m, d)', 'value': 'datetime.date(y, m, d)'})
+        else:
+            res.fail('function:date(int, int, int)', 'castdef:date3', f'date(y, m, d) must be datetime.date(y, m, d); returns {vals}'[:300], loc(fi))
+    # possign / account_sortkey: the account types of this ledger
+    CTX, ACC = Sym('CONTEXT'), Sym('ACCOUNT')
+    TYPES = T('attr', (T('item', (T('attr', (CTX, 'tables')), 'accounts')), 'types'))
+    for name in ('possign', 'account_sortkey'):
+        fs = impls(name, 2 if name == 'possign' else 1)
+        if not fs:
+            raise AnalysisError(f'anchor vanished: {name}()')
+        fi = fs[0].impl
+        env = {fi.params[0]: CTX}
+        if name == 'possign':
+            env[fi.params[1]] = X
+            env[fi.params[2]] = ACC
+        else:
+            env[fi.params[1]] = ACC
+        seen = []
+
+        def on_call(fn, fv, rc, a, k, ex, nd):
+            last = str(fn).split('.')[-1]
+            if last in ('get_account_sign', 'get_account_sort_key'):
+                seen.append((last, a, k))
+                return Sym('SIGN') if last == 'get_account_sign' else T('tuple', (Sym('INDEX'), Sym('NAME')))
+            return NotImplemented
+        paths = Engine(P, on_call=on_call).paths(fi, env)
+        uses_types = bool(seen) and all(TYPES in a or any(v == TYPES for _, v in k) for _, a, k in seen) and all(ACC in a for _, a, k in seen)
+        construct = f'function:{name}'
+        if not uses_types:
+            res.fail(construct, 'castdef:account-types', f'{name}() must classify the account with the account types of this ledger '
+                     f'(context.tables["accounts"].types): ledgers may rename the five root accounts; it calls '
+                     f'{[(n, tuple(map(show, a))) for n, a, k in seen] or "no classifier"}', loc(fi))
+            continue
+        if name == 'possign':
+            outs = {}
+            for p in paths:
+                for t, o in p.decisions:
+                    if isinstance(t, T) and t.op == 'cmp' and Sym('SIGN') in (t.args[1], t.args[2]):
+                        op, l, r = t.args
+                        nonneg = o if (op, r) in (('>=', 0), ('>', -1)) and l == Sym('SIGN') else (not o) if (op, r) == ('<', 0) and l == Sym('SIGN') else \
+                            o if (op, r) == ('>', 0) and l == Sym('SIGN') else None
+                        outs[nonneg] = p.value
+            if outs.get(True) == X and outs.get(False) == T('neg', (X,)):
+                res.ok({'function': name, 'value': 'x for debit-normal accounts, -x for credit-normal ones', 'account_types': 'of this ledger'})
+            else:
+                res.fail(construct, 'castdef:possign', f'possign(x, account) must be x when the sign of the account is positive and -x otherwise; '
+                         f'got {[(k, show(v)) for k, v in outs.items()]}', loc(fi))
+        else:
+            res.ok({'function': name, 'account_types': 'of this ledger'})
+    return res
